@@ -37,10 +37,14 @@ def get_inherited(t: Type) -> Type:
         return Any  # type: ignore
 
     r = base_classes[0]  # type: ignore
+    if get_origin(r) is typing.Generic:
+        # `class C(Generic[T])` - no base class to go to.
+        return Any  # type: ignore
 
     g_args = get_args(t)
     if len(g_args) > 0:
-        mapping = {a.__name__: v for a, v in zip(r.__parameters__, g_args)}
+        # The arguments of `t` bind the parameters of its own class (not those of the base).
+        mapping = {a.__name__: v for a, v in zip(get_origin(t).__parameters__, g_args)}
 
         r_base = get_origin(r)
         assert r_base is not None, "Internal error"
@@ -87,6 +91,9 @@ def build_type_dict_from_type(t: Type, at_class: Optional[Type] = None) -> Dict[
     generic_type = get_origin(t)
     if generic_type is None:
         if at_class is not None:
+            if hasattr(t, "__orig_bases__"):
+                # e.g. `class Fixed(Base[int])`: the parameters are bound by the base class
+                return build_type_dict_from_type(get_inherited(t), at_class)
             raise TypeError(f"Could not find type {str(at_class)} in {str(t)}")
         return {}
 
